@@ -558,6 +558,13 @@ def generate(unit_name, repo=None, extra_fn_hook=None, canary=False, findings=Fa
                             out.add(strip_vis(ch.text()) if (kind == "trait" or " for " in key) else "pub " + strip_vis(ch.text()))
                     out.add("}")
                     out.add("")
+                if ent.get("exact_fns") is not None:
+                    have = sorted(ch.name for it in cands for ch in it.children if ch.kind == "fn")
+                    want = sorted(ent["exact_fns"])
+                    info.setdefault("structural", []).append({
+                        "item": "%s :: %s" % (file, key), "labels": ent.get("exact_labels", []),
+                        "ok": have == want, "have": have, "want": want,
+                        "clause": "the set of methods of `%s` is exactly %s (the assumed traversal contract depends on which visitor methods are overridden)" % (key, want)})
                 if fns is not None:
                     found = {ch.name for it in cands for ch in it.children}
                     for f in names:
